@@ -394,7 +394,7 @@ CONFIGS['hostile_quick'] = dict(CONFIGS['hostile'], transports=['t1', 't2'],
                                 raw=['empty', 'type9', 'connerr', 'badjson',
                                      'dictpayload', 'emptylist', 'numpayload',
                                      'longid', 'deepjson', 'bytes', 'count11',
-                                     'strpayload', 'intevent',
+                                     'strpayload', 'intevent', 'acknum',
                                      'evunknownns', 'ackunknownns',
                                      'bytesevent', 'bytesdisc', 'bytesconn'])
 
